@@ -3,6 +3,7 @@ package openapi
 import (
 	"context"
 	"fmt"
+	"math"
 	"net/url"
 	"regexp"
 	"sort"
@@ -381,6 +382,20 @@ func (g *generator) walkEnum(schema *openapi3.Schema) (ast.Type, error) {
 		if value == nil {
 			nullable = true
 			continue
+		}
+
+		// members are all strings, or all integers: nothing else can be declared as an enum
+		switch member := value.(type) {
+		case string:
+			if !schema.Type.Is(openapi3.TypeString) {
+				return ast.Type{}, fmt.Errorf("enum members must be all strings or all integers: '%v' is a string", value)
+			}
+		case float64:
+			if schema.Type.Is(openapi3.TypeString) || member != math.Trunc(member) {
+				return ast.Type{}, fmt.Errorf("enum members must be all strings or all integers: '%v' is not an integer", value)
+			}
+		default:
+			return ast.Type{}, fmt.Errorf("enum members must be all strings or all integers: '%v' is neither", value)
 		}
 
 		enums = append(enums, ast.EnumValue{
